@@ -25,7 +25,8 @@ static void corrupt_square(SuperMatrix *M, int allow_nr, Stype_t st) { int k = n
 static void corrupt_dense(SuperMatrix *M, DNformat *D, int n, int allow_neg_ncol, int need_pos_ncol) { int k = nondet_int(); ASSUME(k >= 0 && k <= 4);
   if (k == 0 && allow_neg_ncol) { int d = nondet_int(); ASSUME(d < 0 && d >= -3); M->ncol = d; }
   else { if (need_pos_ncol) ASSUME(M->ncol > 0);
-    if (k <= 1) { int d = nondet_int(); ASSUME(d < n && d >= -2); ASSUME(n > 0); D->lda = d; }
+    if (k <= 1) { int d = nondet_int(); ASSUME(d < n && d >= -2); ASSUME(n > 0); D->lda = d;
+      if (k == 1) { int r = nondet_int(); ASSUME(r >= 0 && r <= NB + 1); M->nrow = r; } }   /* a leading dimension below the order of the system is illegal whatever row count the dense matrix declares */
     else if (k == 2) { int s = nondet_int(); ASSUME(s >= 0 && s <= 8 && s != SLU_DN); M->Stype = (Stype_t)s; }
     else if (k == 3) { int s = nondet_int(); ASSUME(s >= 0 && s <= 3 && s != (int)SLU_DT); M->Dtype = (Dtype_t)s; }
     else { int s = nondet_int(); ASSUME(s >= 0 && s <= 8 && s != SLU_GE); M->Mtype = (Mtype_t)s; } } }
